@@ -505,6 +505,11 @@ def check(facts):
                 for s_ in _br2.value_sources(b2, b2.root_of(a_["pl"]["l"])[0]):
                     if s_[0] in ("call", "outcome") and len(s_) > 1 and s_[1].split("::")[-1] not in (
                             "next_right_pos", "branch", "from_residual", "from_output", "offset_to_pos", "left_end", "clone"):
+                        # a constructor split off this function (new, called only from here) that wraps the position is looked through
+                        if facts.has_body(s_[1]) and s_[1] not in core.fn_names_table() and facts.owner_of(s_[1]) == re.sub(r"(::\{closure#\d+\})+$", "", fn2) \
+                                and not any((t3.get("callee") or "").startswith(("indexing::", "pikevm::", "cursor::", "matchers::", "scm::"))
+                                            for _, t3 in facts.body(s_[1]).iter_calls()):
+                            continue      # builds a value from its arguments; it does not walk the input
                         odd2.add(s_[1].split("::")[-1])
             if odd2:
                 r.fail(key2, "after a failed attempt the PikeVM resumes from next_right_pos of a position that comes from %s (line %s), not of "
